@@ -177,3 +177,109 @@ def render_clause(rep, mod, tier):
                    'names and values are abstracted: "N": field name, "S" string, I integer, D double, T boolean, "0x" bytes')
         rep.coverage.setdefault('render', {})[cbname] = {'documents': n}
     rep.coverage['render']['bound'] = ['all object and array documents with at most %d values below the root, nesting <= %d, scalar kinds %s' % (n_, d_, list(sc)) for (n_, d_, sc) in bounds]
+
+
+# ---- clause FORMAT: how each value is converted -----------------------------------------------------------------------------
+def format_clause(rep, mod):
+    """each value kind is converted by a printf directive that means what the property says: integers - signed decimal of the
+    64-bit value; doubles - %f; booleans - the words true / false for 1 / 0; bytes - two lower-case hex digits per byte,
+    zero padded; names and strings - %s limited to the span length.  Directives are compared by meaning, not by text."""
+    from engine.externals import parse_format
+    lay = Layout(mod)
+    n = 0
+    for (cbname, ctxkind) in ((TOSTR_CB, 'to_string'), (PRINT_CB, 'print')):
+        C = Contracts(mod, c14.EmitHooks())
+        fn = mod.functions.get(cbname)
+        need(fn is not None, 'C14: %s not found' % cbname)
+        kinds = set()
+        for ins in fn.instructions():
+            if ins.op == 'switch':
+                kinds.update(k for (k, lb) in ins.attrs['cases'])
+
+        def convs(kind, bool_byte=None):
+            mark = len(C.hooks.log)
+            res, unproven = c14.traces(C, fn, ctxkind, kind, 2, False, bool_byte)
+            out = []
+            seen = set()
+            for x in C.hooks.log[mark:]:
+                if x[0] == 'printf' and x[4] == cbname:
+                    fmt = x[2]
+                    items = [it for it in parse_format(fmt) if it[0] == 'conv']
+                    if items and (fmt, x[1].loc()) not in seen:
+                        seen.add((fmt, x[1].loc()))
+                        out.append((fmt, items, x[3], x[1].loc()))
+            return out, res
+
+        # classify the token kinds by what the RENDER abstraction makes of their traces
+        role = {}
+        for k in sorted(kinds):
+            cs, res = convs(k)
+            texts = set()
+            for (tr, nps) in res:
+                try:
+                    texts.add(''.join(piece(e[0], e[1], mod) for e in tr))
+                except AnalysisBroken:
+                    texts.add('?')
+            for t_, r_ in (('I', 'integer'), ('D', 'double'), ('T', 'boolean'), ('"0x"', 'bytes'), ('"S"', 'string'), ('"N":', 'name')):
+                if texts and all(x.endswith(t_) or x == t_ for x in texts):
+                    role[r_] = (k, cs)
+        for r_ in ('integer', 'double', 'boolean', 'bytes', 'string', 'name'):
+            need(r_ in role, 'C14: no token kind of %s renders as a %s' % (cbname, r_))
+
+        def ob(ok, what, msg, fmt=''):
+            nonlocal n
+            n += 1
+            rep.ob(ok, '%s:FORMAT:%s' % (cbname, what), 'C14 FORMAT %s: %s' % (cbname, msg), 'format string: %r' % fmt,
+                   sample={'callback': cbname, 'value_kind': what, 'format': fmt})
+        # integer
+        k, cs = role['integer']
+        ok = len(cs) == 1 and len(cs[0][1]) == 1
+        if ok:
+            (_, flags, width, prec, length, spec) = cs[0][1][0]
+            size = {'': 4, 'l': lay.ptr, 'll': 8, 'j': 8, 'z': lay.ptr, 't': lay.ptr}.get(length, 0)
+            ok = spec in ('d', 'i') and flags == '' and width is None and prec is None and size == 8
+        ob(ok, 'integer', 'an integer is not printed as the signed decimal of its 64-bit value (directive %r)' % (cs[0][0] if cs else None,), cs[0][0] if cs else '')
+        # double
+        k, cs = role['double']
+        ok = len(cs) == 1 and len(cs[0][1]) == 1
+        if ok:
+            (_, flags, width, prec, length, spec) = cs[0][1][0]
+            ok = spec == 'f' and flags == '' and width is None and prec is None and length in ('', 'l')
+        ob(ok, 'double', 'a double is not printed as printf %%f (directive %r)' % (cs[0][0] if cs else None,), cs[0][0] if cs else '')
+        # bytes
+        k, cs = role['bytes']
+        hexes = [c for c in cs if any(it[5] in ('x', 'X', 'o', 'u', 'd', 'i') for it in c[1])]
+        ok = len(hexes) >= 1
+        for c in hexes:
+            for (_, flags, width, prec, length, spec) in c[1]:
+                ok = ok and spec == 'x' and '0' in flags and '-' not in flags and '#' not in flags and width == 2 and prec is None and length in ('', 'hh', 'h')
+        ob(ok, 'bytes', 'a byte is not printed as two zero-padded lower-case hex digits (directives %r)' % ([c[0] for c in hexes],), hexes[0][0] if hexes else '')
+        # names and strings: %s limited by a precision taken from the arguments
+        for r_ in ('name', 'string'):
+            k, cs = role[r_]
+            ok = len(cs) == 1 and len(cs[0][1]) == 1
+            if ok:
+                (_, flags, width, prec, length, spec) = cs[0][1][0]
+                ok = spec == 's' and prec == '*' and flags == '' and length == ''
+            ob(ok, r_, 'a %s is not printed by %%s limited to its length (directive %r)' % (r_, cs[0][0] if cs else None), cs[0][0] if cs else '')
+        # boolean: the word for 1 is "true", for 0 "false"
+        k, _ = role['boolean']
+        for (bv, word) in ((1, 'true'), (0, 'false')):
+            cs, res = convs(k, bool_byte=bv)
+            words = set()
+            for c in cs:
+                (_, flags, width, prec, length, spec) = c[1][0]
+                okd = spec == 's' and flags == '' and width is None and prec is None
+                words.add(None if okd else c[0])
+            # the argument string: a global constant named in the emit trace
+            got = set()
+            for (tr, nps) in res:
+                for e in tr:
+                    for a in e[1]:
+                        if isinstance(a, str) and a.startswith('global:@'):
+                            g = mod.globals.get(a[len('global:@'):])
+                            init = g.get('init') if g else None
+                            if init and init[0] == 'cstr':
+                                got.add(bytes(init[1]).split(b'\0')[0].decode('latin-1'))
+            ob(got == {word} and words == {None}, 'boolean-%d' % bv, 'a boolean %d is not printed as the word %s (printed: %r)' % (bv, word, sorted(got)), '%s')
+    return n
